@@ -179,8 +179,8 @@ def check_C01(tr):
                 want = sorted(live.get(key, []), key=repr)
                 got = sorted([_frame_msg(e) for e in st.frames(c, "message")], key=repr)
                 if want != got:
-                    coerced = sorted([(s, str(p) if isinstance(p, int) else p, bd, rx, str(i) if isinstance(i, int) else i)
-                                      for (s, p, bd, rx, i) in want], key=repr)
+                    tx = lambda v: str(v) if (isinstance(v, int) and not isinstance(v, bool)) else v
+                    coerced = sorted([(s, tx(p), tx(bd), rx, tx(i)) for (s, p, bd, rx, i) in want], key=repr)
                     known = "K-id-coercion" if coerced == got else None
                     out.append(Finding("C01", "replay = messages added since the mailbox's last deletion", st.i,
                                        {"expected": want, "got": got}, known))
@@ -204,6 +204,11 @@ def check_C02(tr):
                 # message frames are only ever caused by add (broadcast) and open (replay)
                 if st.frames(typ="message"):
                     out.append(Finding("C02", "message frame outside add/open", st.i, {"frames": st.raw_events}))
+            else:
+                others = [e for e in st.frames(typ="message") if e["c"] != op["c"]]
+                if others:
+                    out.append(Finding("C02", "an open replays to the opener only", st.i,
+                                       {"recipients": sorted({e["c"] for e in others})}))
             continue
         c, m = op["c"], op["msg"]
         b = st.bind_pre.get(c)
@@ -262,8 +267,11 @@ def check_C03(tr):
                 row = st.pre.np_by_key()[(b[0], name)]
                 fr = st.frames(c, "claimed")
                 if not fr or dec(fr[0]["args"][0]) != row[3]:
-                    nsides = len([s for s in st.pre.mb_sides if s[0] == row[3]])
-                    known = "K-crowded-rejoin" if (st.err(c) == "crowded" and nsides >= 3) else None
+                    rows_ = [s for s in st.pre_mb_sides_in_order(row[3])]
+                    first2 = [s[2] for s in rows_[:2]]
+                    if b[1] not in first2 and len(rows_) >= 2 and st.err(c) == "crowded":
+                        continue        # a third side repeating its refused claim is refused again: correct
+                    known = "K-crowded-rejoin" if (st.err(c) == "crowded" and len(rows_) >= 3 and b[1] in first2) else None
                     out.append(Finding("C03", "a repeated claim by a holder is answered with the same mailbox", st.i,
                                        {"nameplate": (b[0], name), "side": b[1], "events": st.raw_events}, known))
         if st.pre is not None and st.post is not None:
@@ -432,7 +440,12 @@ def check_C07(tr):
                 # nameplate deleted: last release, close deleting its mailbox, or sweep
                 mb = st.pre.np_by_key()[(a, n)][3]
                 mb_gone = (a, mb) not in st.post.mailbox_ids()
-                last_release = t == "release" and actor and actor[0] == a
+                named = op["msg"].get("nameplate") if op["op"] == "recv" else None
+                if op["op"] == "recv" and named is None:
+                    named = getattr(st, "flags_pre", {}).get(op["c"], {}).get("np")
+                holders = {s2 for (a2, n2, s2) in before if (a2, n2) == (a, n)}
+                # a release retires the nameplate only if it names it and nobody else still holds it
+                last_release = t == "release" and actor and actor[0] == a and named == n and holders <= {actor[1]}
                 ok = last_release or (t == "close" and mb_gone and actor and actor[0] == a) or (t == "sweep" and mb_gone)
                 if not ok:
                     out.append(Finding("C07", "a nameplate disappears only by last release, deletion of its mailbox, or expiry",
@@ -463,6 +476,14 @@ def check_C07(tr):
         if op["op"] == "recv" and op["msg"].get("type") == "claim" and actor and st.err(op["c"]) == "reclaimed":
             if st.pre.chan_rows() != st.post.chan_rows():
                 out.append(Finding("C07", "reclaimed changes nothing", st.i, {}))
+        if op["op"] == "recv" and op["msg"].get("type") == "claim" and actor and "nameplate" in op["msg"] \
+                and expected_rejection(st, op) is None:
+            # a side that released a nameplate that is still live cannot claim it again
+            row = st.pre.np_by_key().get((actor[0], op["msg"]["nameplate"]))
+            if row is not None and any(s2[0] == row[0] and s2[2] == actor[1] and not s2[1] for s2 in st.pre.np_sides):
+                if [x["type"] for x in st.frames(op["c"])] != ["ack", "error"] or st.err(op["c"]) != "reclaimed":
+                    out.append(Finding("C07", "a side that released a live nameplate cannot claim it again", st.i,
+                                       {"nameplate": (actor[0], op["msg"]["nameplate"]), "side": actor[1], "events": st.raw_events}))
     return out
 
 
@@ -474,7 +495,23 @@ def check_C08(tr):
         if st.pre is None or st.post is None:
             continue
         pre_ids, post_ids = st.pre.mailbox_ids(), st.post.mailbox_ids()
-        if op["op"] != "sweep":
+        if op["op"] != "sweep" and not st.crashed() and op["op"] != "restart":
+            for (a, mb) in pre_ids - post_ids:
+                # connections that, by the history alone, opened this mailbox and have neither closed nor dropped
+                closer = op.get("c") if op["op"] == "recv" else None
+                live = [cc for cc, am in st.sub_pre.items() if am == (a, mb) and cc != closer]
+                for cc in live:
+                    side = st.bind_pre.get(cc, (None, None))[1]
+                    row = [s for s in st.pre.mb_sides if s[0] == mb and s[2] == side]
+                    actor_side = st.bind_pre.get(closer, (None, None))[1] if closer is not None else None
+                    if side == actor_side:
+                        continue      # the same side closed on another connection: that side has closed
+                    # K-reopen-after-close: the subscriber's side had closed earlier and opened again; Mailbox.open
+                    # does not set `opened` back, so the side is subscribed but does not count as open
+                    known = "K-reopen-after-close" if (row and not row[0][1]) else None
+                    out.append(Finding("C08", "a mailbox stays while a side that opened it has not closed it", st.i,
+                                       {"mailbox": (a, mb), "subscribed_connection": cc, "side": side,
+                                        "its_side_row": row[:1]}, known))
             for (a, mb) in pre_ids - post_ids:
                 # a mailbox with an open side disappears only by a close of its last open side
                 was_open = [s for s in st.pre.mb_sides if s[0] == mb and s[1]]
@@ -505,10 +542,12 @@ def check_C08(tr):
         if mb is None:
             continue
         if e == "crowded":
-            nsides = len({s[2] for s in st.post.mb_sides if s[0] == mb})
-            had_row = any(s[0] == mb and s[2] == b[1] for s in st.pre.mb_sides)
-            out.append(Finding("C08", "close is answered closed", st.i, {"mailbox": mb, "side": b[1]},
-                               "K-crowded-rejoin" if nsides >= 3 else None)) if had_row else None
+            rows_ = st.pre_mb_sides_in_order(mb)
+            first2 = [s[2] for s in rows_[:2]]
+            if b[1] in first2:
+                # one of the first two sides is refused its close
+                out.append(Finding("C08", "close is answered closed", st.i, {"mailbox": mb, "side": b[1]},
+                                   "K-crowded-rejoin" if len(rows_) >= 3 else None))
             continue
         if [x["type"] for x in st.frames(c)] != ["ack", "closed"] or st.internal():
             known = None
@@ -601,7 +640,7 @@ def check_C10(tr):
             if pr:
                 out.append(Finding("C10", "the state left by a crash has no duplicates and no dangling rows", st.i, {"problems": pr[:5]}))
         for bng in st.bangs():
-            if bng.startswith("!startup"):
+            if bng.startswith("!startup"):      # impl.py: the real start-up path raised on the files a crash left
                 out.append(Finding("C10", "the server restarts on the files a crash left", st.i, {"event": bng}))
         if tr.has_crash and st.op["op"] == "sweep" and not st.op.get("fault") and st.internal():
             out.append(Finding("C10", "sweeps complete without internal errors after a crash", st.i, {"events": st.raw_events}))
@@ -682,7 +721,7 @@ def check_C13(tr, expiration):
             subs = set(st.sub_pre.values())
             old = op["now"] - expiration
             for r in st.post.mailboxes:
-                if r[2] <= old and (r[0], r[1]) not in subs and st.pre is not None and \
+                if r[2] < old and (r[0], r[1]) not in subs and st.pre is not None and \
                         any(x[1] == r[1] and x[2] == r[2] for x in st.pre.mailboxes):
                     out.append(Finding("C13", "a sweep deletes every idle unsubscribed mailbox", st.i, {"mailbox": r}))
             if not st.internal():
@@ -709,14 +748,16 @@ def check_C13(tr, expiration):
         alive, last_t = set(), None
         for st in tr.steps[:-1]:
             k = st.op["op"]
+            # a sweep or command that finds somebody connected may stamp a mailbox with its own time
+            tt = st.op.get("t", st.op.get("now"))
+            if tt is not None and (alive or k == "recv"):
+                last_t = tt if last_t is None else max(last_t, tt)
             if k == "connect":
                 alive.add(st.op["c"])
             elif k == "drop":
                 alive.discard(st.op["c"])
             elif k in ("restart", "cfg") or st.crashed():
                 alive.clear()
-            if k == "recv":
-                last_t = st.op["t"] if last_t is None else max(last_t, st.op["t"])
         fin = tr.steps[-1]
         if fin.op["op"] == "sweep" and not fin.op.get("fault") and not fin.crashed() and not alive and \
                 (last_t is None or fin.op["now"] >= last_t + expiration):
@@ -886,6 +927,14 @@ def _post_sides_at_delete(self, mb):
 Step.post_sides_at_delete = _post_sides_at_delete
 
 
+def _pre_mb_sides_in_order(self, mb):
+    """side rows of a mailbox before the step, oldest first (by `added`, the dump itself is sorted textually)"""
+    return sorted([s for s in self.pre.mb_sides if s[0] == mb], key=lambda s: (s[3], s[2]))
+
+
+Step.pre_mb_sides_in_order = _pre_mb_sides_in_order
+
+
 def check_C16(tr):
     out = []
     b = tr.cfg.get("blur")
@@ -1013,7 +1062,7 @@ def check_C17(tr, welcome=None):
                 if _p.bad_client_version(m["client_version"]):
                     continue      # outside the property's domain of well-formed commands (DESIGN 6, C17)
             if clss == ["IntegrityError"] and st.pre is not None and m.get("type") in ("open", "close"):
-                mbid = m.get("mailbox") or st.held_pre.get(c)
+                mbid = m.get("mailbox") or (close_target(st) if m.get("type") == "close" else None)
                 b = st.bind_pre.get(c)
                 if b and any(r[1] == mbid and r[0] != b[0] for r in st.pre.mailboxes):
                     known = "K-global-mailbox-id"
